@@ -280,8 +280,8 @@ Section Hier.
   Definition M_blocks (t : level) : res (list (list A)) :=
     res_all (map (M_values_at_depth t) (seq 0 (lv_depth t))).
 
-  (* ---- IndexLevel.__contains__ (index_level.py:426); NOTE returns True at the leaf even when key
-          components remain *)
+  (* ---- IndexLevel.__contains__ (index_level.py:426); a leaf label is a member only if the key ends there
+          (`return key_depth == key_depth_max`, fix 248eb88) *)
   Fixpoint M_contains (key : list A) (t : level) : bool :=
     match key with
     | [] => false
@@ -290,7 +290,7 @@ Section Hier.
         | None => false
         | Some i =>
             match t with
-            | Leaf _ _ => true
+            | Leaf _ _ => match key' with [] => true | _ => false end
             | Node _ _ ks => match nth_error ks i with Some c => M_contains key' c | None => false end
             end
         end
@@ -344,7 +344,13 @@ Section Hier.
         | Err e => Err e
         | Ok sa => match slice_bound ls b (o + 1) with
                    | Err e => Err e
-                   | Ok sb => Ok (PSlice sa sb)
+                   | Ok sb =>
+                       (* open ends are bounded by this index's own extent when an offset applies (fix cc33791) *)
+                       match offset with
+                       | Some o' => Ok (PSlice (match sa with None => Some o' | _ => sa end)
+                                               (match sb with None => Some (zlen ls + o') | _ => sb end))
+                       | None => Ok (PSlice sa sb)
+                       end
                    end
         end
     | SOne l => match index_of l ls with Some i => Ok (PInt (Z.of_nat i + o)) | None => Err "KeyError" end
@@ -438,14 +444,11 @@ Section Hier.
     end.
 
   (* ---- the guard of the refinement theorem hloc_exact (what the property's quantifier admits and the
-          code handles): Boolean arrays only at the innermost depth and of the index length; no half-open
-          label slice at the innermost depth (finding C05-hloc-open-leaf-slice); no more selectors than depths *)
+          code handles): Boolean arrays only at the innermost depth and of the index length; no more selectors
+          than depths *)
   Definition sel_guard (inner : bool) (total : nat) (s : sel) : bool :=
     match s with
     | SMask bs => inner && Nat.eqb (length bs) total
-    | SSlice a b =>
-        if inner then match a, b with None, None => true | Some _, Some _ => true | _, _ => false end
-        else true
     | _ => true
     end.
   Definition key_guard (D total : nat) (key : list sel) : bool :=
@@ -465,8 +468,9 @@ Section Hier.
   (* strict = true : the tree builder of IndexHierarchy.from_labels / _from_type_blocks
                      (index_hierarchy.py:259-301, 437-475): a label that is present but is not the LAST
                      one of its sibling group is rejected (`observed_last`).
-     strict = false: IndexLevelGO.append (index_level.py:853-940): descends the LAST edge whenever the
-                     label is present anywhere in the sibling group. *)
+     strict = false: IndexLevelGO.append (index_level.py:853-945): the same rule since fix 5320f59 (a present
+                     label that is not the last one of its level raises RuntimeError before any mutation);
+                     only the error class differs. *)
   Fixpoint ins (strict : bool) (t : level) (key : list A) {struct t} : res level :=
     let bad : string := (if strict then "ErrorInitIndex" else "RuntimeError")%string in
     match t with
@@ -479,7 +483,7 @@ Section Hier.
         match key with
         | k :: ((_ :: _) as key') =>
             if mem k ls then
-              if strict && negb (last_is k ls) then Err bad
+              if negb (last_is k ls) then Err bad
               else
                 match map_last (fun c => ins strict c key') ks with
                 | Ok ks' => Ok (Node o ls ks')
@@ -576,24 +580,26 @@ Section Hier.
   Definition wf (h : nat) (t : level) : bool :=
     (lv_off t =? 0) && uniform h t && offsets_ok t && labels_ok t.
 
-  (* ---- guards of the growth theorems: a key is admitted when the from_labels builder admits it (this
-          excludes exactly the input class of finding C05-append-last-edge, where IndexLevelGO.append goes on
-          although the builder rejects); an extension when extend succeeds on a well-formed operand *)
+  (* ---- growth: every append is covered (admitted -> exact, rejected -> state unchanged); an extension operand
+          must be a well-formed tree (it always is: it comes out of an IndexHierarchy) *)
   Definition is_ok {B} (r : res B) : bool := match r with Ok _ => true | Err _ => false end.
-  Definition op_dom (h : nat) (t : level) (o : op) : bool :=
+  Definition op_dom (h : nat) (o : op) : bool :=
     match o with
-    | OAppend k => Nat.eqb (length k) (S h) && is_ok (ins true t k)
-    | OExtend u => uniform h u && offsets_ok u && labels_ok u && is_ok (M_extend t u)
-    | ORead => true
+    | OExtend u => uniform h u && offsets_ok u && labels_ok u
+    | _ => true
     end.
-  Fixpoint hist_dom (h : nat) (st : ihgo) (ops : list op) : bool :=
+  (* the tuples an operation adds in a given state: none when it is rejected *)
+  Definition step_rows (t : level) (o : op) : list (list A) :=
+    match o with
+    | OAppend k => if is_ok (M_append t k) then [k] else []
+    | OExtend u => if is_ok (M_extend t u) then flatten u else []
+    | ORead => []
+    end.
+  Fixpoint hist_rows (st : ihgo) (ops : list op) : list (list A) :=
     match ops with
-    | [] => true
-    | o :: ops' => op_dom h (g_tree st) o && hist_dom h (go_step st o) ops'
+    | [] => []
+    | o :: ops' => step_rows (g_tree st) o ++ hist_rows (go_step st o) ops'
     end.
-  (* the tuples an operation adds *)
-  Definition op_rows (o : op) : list (list A) :=
-    match o with OAppend k => [k] | OExtend u => flatten u | ORead => [] end.
 End Hier.
 
 Arguments Leaf {A} off labels.
